@@ -1,3 +1,5 @@
 import Bng.Spec.C14
+import Bng.Spec.C14Locks
 import Bng.Audit
 #audit_module Bng.Spec.C14
+#audit_module Bng.Spec.C14Locks
